@@ -68,17 +68,27 @@ def boundaries(b):
 
 
 def random_unknown_record(rng, avoid_numbers):
+    """a well-formed record of a field number the schema does not declare.  One record in four is encoded NON-MINIMALLY
+    (padded tag, padded varint value, padded length prefix — legal on the wire, other writers produce them): "re-emitted
+    byte for byte" is about the bytes that arrived, not about a re-encoding of their meaning"""
     while True:
         num = rng.choice([6, 8, 9, 11, 12, 13, 14, 99, 1000, 4000, 70000, 536870910])
         if num not in avoid_numbers:
             break
     wt = rng.choice([0, 1, 2, 5])
-    tag = enc_varint(num << 3 | wt)
+    padded = rng.random() < 0.25
+
+    def pad(v):
+        # keep every varint within 10 bytes
+        room = 10 - len(enc_varint(v))
+        return rng.randint(1, min(2, room)) if padded and room > 0 and rng.random() < 0.7 else 0
+    tag = enc_varint(num << 3 | wt, pad(num << 3 | wt))
     if wt == 0:
-        return tag + enc_varint(rng.choice([0, 1, 127, 128, rng.getrandbits(64)]))
+        v = rng.choice([0, 1, 5, 127, 128, rng.getrandbits(64)])
+        return tag + enc_varint(v, pad(v))
     if wt == 1:
         return tag + bytes(rng.getrandbits(8) for _ in range(8))
     if wt == 5:
         return tag + bytes(rng.getrandbits(8) for _ in range(4))
     n = rng.choice([0, 1, 3, 7])
-    return tag + enc_varint(n) + bytes(rng.getrandbits(8) for _ in range(n))
+    return tag + enc_varint(n, pad(n)) + bytes(rng.getrandbits(8) for _ in range(n))
